@@ -135,6 +135,11 @@ class FetchShape(FetchStream):
             # formerly F10 (repaired in /repo af676a9): a disabled definition no longer supplies $y
             {"m": "a = 1\n", "s": ["!y = 5\na = $y\n"], "env": [], "diff": 0, "kind": "var"},
             {"m": "a = 1\n", "s": ["y = 4\n!y = 5\na = $y\n"], "env": [], "diff": 0, "kind": "var"},
+            # a disabled SCOPE (brace style, dotted-name style, nested) before a dotted reference: never searched
+            {"m": "a = 0\n", "s": ["s { x = 1 }\n!s { x = 5 }\na = $(s.x)\n"], "env": [], "diff": 0, "kind": "var"},
+            {"m": "a = 0\n", "s": ["!s { x = 5 }\na = $(s.x)\n"], "env": [], "diff": 0, "kind": "var"},
+            {"m": "a = 0\n", "s": ["s.t.z = 1\n!s.t { z = 5 }\na = $(.s.t.z)\n"], "env": [], "diff": 0, "kind": "var"},
+            {"m": "p { a = 0 }\n", "s": ["s { x = 1 }\np { !s { x = 5 }\n a = $(s.x) }\n"], "env": [], "diff": 0, "kind": "var"},
             {"m": "s { a = 1 }\n", "s": ["!s { y = 5 }\ns { y = 6\n !y = 7\n a = $y $(s.y) }\n"], "env": [], "diff": 0, "kind": "var"},
             # the worked example of Proofs/FetchExamples.v
             {"m": "a = 1\ns\n  .multiple = True\n{\n  b = x\n}\n!d = 0\n",
@@ -161,7 +166,7 @@ class FetchShape(FetchStream):
     def cases(self, rng, tier):
         n = 3000 if tier == "quick" else 30000
         for i in range(n):
-            c = fc.gen_case(rng, floats=(i % 12 == 11), profile="shape")
+            c = fc.gen_case(rng, floats=(i % 12 == 11), profile="shape", variables=(rng.random() < 0.2))
             if i % 5 == 4:
                 c["diff"] = 1
             yield c
@@ -205,7 +210,7 @@ SPEC = {
             "depth <= 3; no alias; one case in twelve with float/floats types) x 0-4 sources generated from the master's paths "
             "(hits with values valid / invalid for the type, repeated, misspelt, wrongly nested, scope/definition clashes, unknown "
             "scopes, empty scope instances, disabled definitions and scopes, dotted / nested / merged-block spelling, $variables with "
-            "definitions or environment in a minority); one case in five with diff=True; 2 fetch runs per case; distinct = distinct "
+            "definitions or environment in a fifth of the cases, incl. dotted / root-anchored references whose candidates are enabled and disabled scopes (brace and dotted-name style) and definitions placed before the reference, alone or shadowing, top level and nested); one case in five with diff=True; 2 fetch runs per case; distinct = distinct "
             "(master text, source texts, env, diff); non-trivial = at least one source",
     "trusted": fc.COMMON_TRUSTED,
     "modelled": "hand-written model coq/theories/Model/Fetch.v (+ Vars.v, Choice.v); canon (extract_format + as_str) and os.environ are "
